@@ -1,5 +1,5 @@
 (** C07 — property theorems only. *)
-From V Require Import Base.Util Gql.Ast Peg.Peg Gen.C07_grammar_gen C07.Builder C07.Model C07.AstEq C07.Spec C07.Proofs C07.Lexical C07.Strings C07.Numbers C07.Fuel C07.Shapes C07.Render C07.RenderValues C07.RenderArgs C07.RenderDirs C07.RenderSel.
+From V Require Import Base.Util Gql.Ast Peg.Peg Gen.C07_grammar_gen C07.Builder C07.Model C07.AstEq C07.Spec C07.Proofs C07.Lexical C07.Strings C07.Escapes C07.Numbers C07.Fuel C07.Shapes C07.Render C07.RenderValues C07.RenderArgs C07.RenderDirs C07.RenderSel.
 From V Require Import Peg.PegShape.
 From V Require Import Peg.PegProps.
 
@@ -20,11 +20,19 @@ Theorem C07_block_string_refuted :
 Proof. exact block_string_refuted. Qed.
 Print Assumptions C07_block_string_refuted.
 
-Theorem C07_surrogate_pair_refuted :
-  exists inp, parse_operation_document 0 inp = PPanic P_char /\
-              (exists t, string_at (skipn 7 inp) = Some t /\ t = [128512%N]).
-Proof. exact surrogate_pair_refuted. Qed.
-Print Assumptions C07_surrogate_pair_refuted.
+(** formerly refuted (known finding until /repo a4a3647): surrogate pairs are decoded, escapes that denote no
+    character are rejected exactly where the specification's StringValue semantics is undefined *)
+Theorem C07_surrogate_pair_decodes :
+  exists d, parse_operation_document 0 w_surrogate_pair = POk d /\ string_arg_value d = Some [128512%N] /\
+            string_at (skipn 7 w_surrogate_pair) = Some [128512%N] /\ ck_opdoc w_surrogate_pair 0 d = true.
+Proof. exact surrogate_pair_decodes. Qed.
+Print Assumptions C07_surrogate_pair_decodes.
+
+Theorem C07_bad_escapes_rejected :
+  forallb (fun w => match parse_operation_document 0 w with PErr => true | _ => false end
+                    && match string_at (skipn 7 w) with None => true | Some _ => false end) w_bad_escapes = true.
+Proof. exact bad_escapes_rejected. Qed.
+Print Assumptions C07_bad_escapes_rejected.
 
 (** formerly refuted (known findings until /repo 530788b, 3814a72): now positive *)
 Theorem C07_object_type_without_fields_parses :
@@ -117,6 +125,48 @@ Theorem C07_string_lex_empty : forall pre post file sk a,
   /\ build_string_value inp file t = BOk (mkPos (fst (line_col inp i)) (snd (line_col inp i)) file false, []).
 Proof. exact string_lex_empty. Qed.
 Print Assumptions C07_string_lex_empty.
+
+(** escapes (since /repo a4a3647): for every non-empty sequence of string items -- plain characters, simple
+    escapes, fixed-width and braced unicode escapes, any length, any surroundings -- the quoted text is one
+    StringValue token; the specification's StringValue semantics of the text is the partial function
+    [dec_items]; where it is a value the validation pass accepts and the builder returns that value, where it
+    is not (an escape denoting no character) the validation pass reports the parse error *)
+Theorem C07_escapes_lex : forall it l pre post file sk a,
+  let items := it :: l in
+  forallb wf_item items = true ->
+  let inp := pre ++ iquote items ++ post in
+  let i := slen pre in
+  let t := items_tree items i in
+  runs gql_grammar sk a (Call R_StringValue) (iquote items ++ post) i (Ok (post, (i + slen (iquote items))%N, [t]))
+  /\ string_at (iquote items ++ post) = dec_items items
+  /\ match dec_items items with
+     | Some v => validate_pair inp t = VOk
+                 /\ build_string_value inp file t = BOk (mkPos (fst (line_col inp i)) (snd (line_col inp i)) file false, v)
+     | None => validate_pair inp t = VErr
+     end.
+Proof. exact escapes_lex. Qed.
+Print Assumptions C07_escapes_lex.
+
+(** a surrogate pair of fixed-width escapes is the one supplementary character, for the specification and the builder *)
+Theorem C07_surrogate_pair_is_one_char : forall a b c d a' b' c' d' pre post file,
+  let items := [IU4 a b c d; IU4 a' b' c' d'] in
+  forallb wf_item items = true ->
+  is_high_surrogate (u4_code a b c d) = true -> is_low_surrogate (u4_code a' b' c' d') = true ->
+  let ch := (65536 + (u4_code a b c d - 55296) * 1024 + (u4_code a' b' c' d' - 56320))%N in
+  string_at (iquote items ++ post) = Some [ch]
+  /\ build_string_value (pre ++ iquote items ++ post) file (items_tree items (slen pre))
+     = BOk (mkPos (fst (line_col (pre ++ iquote items ++ post) (slen pre))) (snd (line_col (pre ++ iquote items ++ post) (slen pre))) file false, [ch]).
+Proof. exact surrogate_pair_is_one_char. Qed.
+Print Assumptions C07_surrogate_pair_is_one_char.
+
+(** decoding fails exactly where the specification assigns the string no value *)
+Theorem C07_decode_fails_iff_spec : forall it l pre post,
+  let items := it :: l in
+  forallb wf_item items = true ->
+  (validate_pair (pre ++ iquote items ++ post) (items_tree items (slen pre)) = VErr <-> string_at (iquote items ++ post) = None)
+  /\ (validate_pair (pre ++ iquote items ++ post) (items_tree items (slen pre)) = VOk <-> exists v, string_at (iquote items ++ post) = Some v).
+Proof. exact decode_fails_iff_spec. Qed.
+Print Assumptions C07_decode_fails_iff_spec.
 
 (** the rendering used above denotes that value under the specification's StringValue semantics *)
 Theorem C07_spec_reads_quote : forall v post, (v = [] -> not_quote_next post) -> string_at (quote v ++ post) = Some v.
@@ -239,3 +289,16 @@ Theorem C07_parse_render_directives : forall d ds k, forallb rdir_wf (d :: ds) =
     /\ exists l, build_directives inp file t = BOk l /\ map dir_erase l = map rdir_erase (d :: ds).
 Proof. exact parse_render_directives. Qed.
 Print Assumptions C07_parse_render_directives.
+
+(** parse_render (selection sets): fields with alias / arguments / directives / sub-selection, fragment spreads,
+    inline fragments with and without type condition, nested to any depth, whitespace trivia in every gap;
+    [wf_ss] is computable; the tree exists for every offset (its exact shape is in RenderSel.v) *)
+Theorem C07_parse_render_selection_set : forall ss, wf_ss ss = true ->
+  exists T : N -> pair rule, forall pre rest file,
+    let inp := pre ++ ss_text ss ++ rest in
+    let i := slen pre in
+    pair_rule (T i) = R_SelectionSet
+    /\ runs gql_grammar true ANon (Call R_SelectionSet) (ss_text ss ++ rest) i (Ok (rest, (i + slen (ss_text ss))%N, [T i]))
+    /\ exists ss', build_selection_set inp file (T i) = BOk ss' /\ ss_erase ss' = erase_ss ss.
+Proof. exact parse_render_selection_set. Qed.
+Print Assumptions C07_parse_render_selection_set.
